@@ -14,7 +14,7 @@ from ..common import AnalysisError, Check, norm_stmt, parse_py
 LITERAL_SAMPLES = [
     "'a'", '"a b"', "b'a'", "b'é'", 'b"naïve"', "'é'", "'\\x'", "'\\n'", "r'a\\n'", "u'a'", "rb'\\d'", "Rb'x'",
     "'''a\nb'''", "b'''aé'''", "'\\ud800'", "1_0", "0x1f", "0o17", "0b101", "1e5", "1.5", "1j", "1_000.5", "'it\\'s'",
-    "''", '""', "b''", "9" * 5000, "0XFF", "0O17", "0B101", "1E5", "1J", "0xDEAD_beef", "1_0.0_1e1_0", "00", "0_0", ".5", "5.", "1e-3", "0_", "1__0", "'\\N{BULLET}'", "'\\N{NO SUCH NAME}'", "b'\\xff'", "'\\400'",
+    "''", '""', "b''", "9" * 5000, "'caf" + chr(0xDC80) + "'", "b'x" + chr(0xDC80) + "'", "0XFF", "0O17", "0B101", "1E5", "1J", "0xDEAD_beef", "1_0.0_1e1_0", "00", "0_0", ".5", "5.", "1e-3", "0_", "1__0", "'\\N{BULLET}'", "'\\N{NO SUCH NAME}'", "b'\\xff'", "'\\400'",
 ]
 
 
@@ -30,9 +30,8 @@ def rule_x11(chk: Check, rule_id: str = "X11-literal-evaluation"):
     param = [a.arg for a in fn.args.args][1]
     rets = [n.value for n in ast.walk(fn) if isinstance(n, ast.Return) and n.value is not None]
     direct = f"ast.literal_eval({param}.string)"
-    if rets and all(norm_stmt(r) == direct for r in rets):
-        chk.ok(rule_id, "Parser.literal_value", where, "every value comes from ast.literal_eval of the token text")
-        return
+    # (even when every return is that call, the function is evaluated: what it does with the errors of the evaluation — a lone
+    # surrogate raises a ValueError without `.msg` — is part of its behaviour)
     consts = module_pure_constants(repo.SUBHEADER)
     bad, und = [], ""
     for text in LITERAL_SAMPLES:
@@ -40,7 +39,7 @@ def rule_x11(chk: Check, rule_id: str = "X11-literal-evaluation"):
             warnings.simplefilter("ignore")
             try:
                 want = ("value", ast.literal_eval(text))
-            except (SyntaxError, ValueError):
+            except (SyntaxError, ValueError):      # ValueError covers UnicodeEncodeError (a lone surrogate in the text)
                 want = ("error", None)
         kind = "NUMBER" if text[0].isdigit() else "STRING"
 
